@@ -331,3 +331,16 @@ RULE_ADDENDA_5 = {
 }
 for _k, _v in RULE_ADDENDA_5.items():
     PROPS[_k]["rule"] += "; added after the fifth round: " + _v
+
+RULE_ADDENDA_6 = {
+    "C01": "a deterministic case builds 4 documents x 140 fields plus a composite field naming source fields with ids on both sides of 128",
+    "C06": "the fixed scenarios include a single-hit entry (generation 1) whose document is deleted in generation 2 next to a 1023 / 1024-document input",
+    "C07": "the big scenario uses 76000 documents (serialized bitmaps beyond 16 KiB)",
+    "C08": "dictionary-big also enumerates a 76000-document segment with locations (every length field of the postings header needs 3..4 bytes)",
+    "C10": "every build of a history carries a synonym string of its own; no build's image may contain the marker of another build",
+    "C14": "the exclusion bitmap passed when a handle is opened is overwritten by the caller before the search (and restored afterwards); 30 % of filtered queries pass their eligible list in descending order",
+    "C16": "the deterministic history also runs a sparse, large-k filtered search between two identical plain searches of a second handle",
+    "C17": "WriteTo also runs against a destination that fails ONE write (short write with EAGAIN / EINTR / EIO) and then works again: an error, or exactly the image; the merge of an empty input list must report the truth about its path",
+}
+for _k, _v in RULE_ADDENDA_6.items():
+    PROPS[_k]["rule"] += "; added after the sixth round: " + _v
